@@ -117,7 +117,8 @@ class Check:
         if self.machinery_errors:
             for m in self.machinery_errors[:10]:
                 print('MACHINERY-ERROR: property=%s %s' % (self.pid, m))
-            return 2
+            if not self.violations:
+                return 2
         if self.violations:
             rdir = os.path.join(os.environ.get('VERIF_REPLAY_DIR') or os.path.join(VERIF, 'replays'), self.pid)
             os.makedirs(rdir, exist_ok=True)
